@@ -69,20 +69,26 @@ def write_traces(prefix, runs, chunks):
 
 
 def locate(path, matched):
-    """(number of runs in the file, info about the run that contains line matched+1)."""
+    """(number of runs in the file, info about the run the first unmatched line belongs to).  If the unmatched
+    line is the `input` line of a run, the culprit is the run before it (it ended without an outcome)."""
     n = 0
     cur = None
+    prev = None
     bad = None
     with open(path) as f:
         for lineno, line in enumerate(f, 1):
             o = json.loads(line)
             if o.get("ev") == "input":
                 n += 1
+                prev = cur
                 cur = o
             if matched is not None and lineno == matched + 1:
-                bad = {"index": n - 1, "event": o, "input": cur}
+                if o.get("ev") == "input" and prev is not None:
+                    bad = {"index": n - 2, "event": o, "input": prev, "ended_without_outcome": True}
+                else:
+                    bad = {"index": n - 1, "event": o, "input": cur}
     if matched is not None and bad is None:
-        bad = {"index": n - 1, "event": None, "input": cur}
+        bad = {"index": n - 1, "event": None, "input": cur, "ended_without_outcome": True}
     return n, bad
 
 
